@@ -51,6 +51,8 @@ type Effect struct {
 	LHS, RHS ast.Expr
 	Src      string
 	Cond     ast.Expr
+	BulkKey  string // "Struct.field": array comprehension over all references
+	BulkVar  string
 }
 
 type Contract struct {
@@ -590,6 +592,20 @@ func (cf *ContractFile) parseOne(path string) error {
 					}
 					cond = ce
 					body = body[i+3:]
+				}
+				if strings.HasPrefix(body, "bulk ") {
+					// bulk Struct.field VAR = EXPR
+					l, r, ok := strings.Cut(body[5:], " = ")
+					f := strings.Fields(l)
+					if !ok || len(f) != 2 {
+						return fail(fmt.Errorf("ghostafter bulk Struct.field VAR = EXPR"))
+					}
+					re, err := parser.ParseExpr(rewriteSpecSyntax(r))
+					if err != nil {
+						return fail(err)
+					}
+					c.GhostAfter = append(c.GhostAfter, &GhostAnchor{Anchor: anchor, Eff: &Effect{RHS: re, Src: body, Cond: cond, BulkKey: f[0], BulkVar: f[1]}})
+					break
 				}
 				l, r, ok := strings.Cut(body, " = ")
 				if !ok {
